@@ -192,22 +192,59 @@ def dqt_all(n):
 
 
 def find_output_var(idx, main):
-    """The variable assigned from argv[++i] in the branch guarded by a comparison with "-o"/"--output"."""
+    """The variable (declared outside the branch) that receives an element of argv in the branch guarded by a comparison with
+    "-o"/"--output"; the element may pass through branch-local variables first.
+    Returns (var id, spellings, if node); (None, spellings, if node) when a branch exists but the idiom is not recognised;
+    (None, None, None) when no branch mentions the option."""
+    seen = None
     for n in walk(main.body):
         if n['kind'] != 'IfStmt':
             continue
         ch = children(n)
         cond = ch[0]
-        lits = {cast.string_lit(x) for x in walk(cond) if x['kind'] == 'StringLiteral'}
         lits = {x.get('value', '').strip('"') for x in walk(cond) if x['kind'] == 'StringLiteral'}
-        if '-o' in lits or '--output' in lits:
-            for a in walk(ch[1]):
-                if a['kind'] == 'BinaryOperator' and a.get('opcode') == '=':
-                    lhs, rhs = children(a)
-                    lid = cast.decl_ref(lhs)
-                    if lid and any(x['kind'] == 'ArraySubscriptExpr' for x in walk(rhs)):
+        if not ('-o' in lits or '--output' in lits):
+            continue
+        seen = (lits, n)
+        local_decls = {d['id'] for d in walk(ch[1]) if d['kind'] == 'VarDecl'}
+        carriers = set()
+
+        def from_argv(e):
+            if any(x['kind'] == 'ArraySubscriptExpr' for x in walk(e)):
+                return True
+            r = cast.decl_ref(e)
+            return r is not None and r in carriers
+        for a in walk(ch[1]):           # source order
+            if a['kind'] == 'VarDecl' and children(a) and from_argv(children(a)[-1]):
+                carriers.add(a['id'])
+            if a['kind'] == 'BinaryOperator' and a.get('opcode') == '=':
+                lhs, rhs = children(a)
+                lid = cast.decl_ref(lhs)
+                if lid and from_argv(rhs):
+                    if lid in local_decls:
+                        carriers.add(lid)
+                    else:
                         return lid, lits, n
+    if seen:
+        return None, seen[0], seen[1]
     return None, None, None
+
+
+def const_string(idx, func, e):
+    """The string an argument denotes: a literal, or a variable of the function initialised with a literal and never assigned."""
+    if any(x['kind'] == 'StringLiteral' for x in walk(e)):
+        return cast.string_lit(e)
+    r = cast.decl_ref(e)
+    if r is None:
+        return None
+    d = idx.by_id.get(r)
+    if not d or d.get('kind') != 'VarDecl':
+        return None
+    for a in walk(func.body):
+        if a['kind'] == 'BinaryOperator' and a.get('opcode', '').endswith('=') and a.get('opcode') not in ('==', '!=', '<=', '>=') \
+                and cast.decl_ref(children(a)[0]) == r:
+            return None
+    return cast.string_lit(d)
 
 
 def rule_r2(rep, idxs):
@@ -220,7 +257,9 @@ def rule_r2(rep, idxs):
         vid, lits, ifn = find_output_var(idx, m)
         key = tu + ':-o'
         if vid is None:
-            rep.add('R2', key, False, pos(m.node) + ' main', 'no branch handles -o/--output by assigning the next argument')
+            rep.undecided('R2', key, ('the -o/--output branch at %s does not assign an argv element to an outer variable in a '
+                                      'recognised form' % pos(ifn)) if ifn else 'no branch of main compares an argument with "-o"/"--output"',
+                          pos(m.node))
             continue
         var = idx.by_id.get(vid, {})
         problems = []
@@ -247,12 +286,16 @@ def rule_r2(rep, idxs):
             args = call_args(c)
             for j, p in enumerate(g.params if g else []):
                 if 'utput' in p.get('name', '') and j < len(args):
-                    outname = cast.string_lit(args[j])
+                    outname = const_string(idx, m, args[j])
                     where = pos(c)
         if name == 'load' and kind == 'method':
             a = call_args(c)
             if a:
-                loadname = cast.string_lit(a[0])
+                loadname = const_string(idx, m, a[0])
+    if outname is None or loadname is None:
+        rep.undecided('R2', 'xrun.cpp:compile-output==load-input',
+                      'the output name passed to runCatchExceptions / the name passed to load is not a string constant', where)
+        return
     rep.add('R2', 'xrun.cpp:compile-output==load-input', outname is not None and outname == loadname,
             where + ' main(xrun.cpp)', 'compiler writes %r, simulator loads %r' % (outname, loadname))
 
@@ -526,14 +569,16 @@ def rule_r5(rep, idxs):
                 argloops.append(l)
         problems = []
         if len(argloops) != 1:
-            problems.append('%d loops handle -o' % len(argloops))
+            rep.undecided('R5', tu + ':arg-loop', 'argument parsing is not a single for-loop over argv (%d loops mention -o): idiom not recognised' % len(argloops))
+            continue
         else:
             l = argloops[0]
             body = l['inner'][-1]
             # the if-chain: walk else-branches
             chain = [c for c in children(body) if c['kind'] == 'IfStmt']
             if len(chain) != 1:
-                problems.append('loop body is not a single if-chain')
+                rep.undecided('R5', tu + ':arg-loop', 'the argument loop body is not a single if-chain: idiom not recognised')
+                continue
             else:
                 node = chain[0]
                 while node is not None and node.get('kind') == 'IfStmt':
